@@ -9,9 +9,9 @@
        (no stale hit), the reported key LISTS being allowed to differ in order/repetition. *)
 From Coq Require Import List NArith ZArith Bool Lia.
 Import ListNotations.
-From LV Require Import Model.Base Model.Template Model.Eval Model.Derived Model.EvalRun
-  Proofs.BaseProofs Proofs.EvalProofs Proofs.EvalInd Proofs.EvalUnfold Proofs.FrameProofs
-  Proofs.FrameTheorem Proofs.RestrictProofs Proofs.SufficientProofs Proofs.FingerprintProofs.
+From LV Require Import Model.Base Model.Template Model.Eval Model.Derived Model.EvalRun Proofs.BaseProofs Proofs.EvalProofs Proofs.EvalInd Proofs.EvalUnfold Proofs.FingerprintProofs.
+From LV Require Import Proofs.DatasetClassProofs.
+From LV Require Import Proofs.FrameProofs Proofs.FrameTheorem Proofs.RestrictProofs Proofs.SufficientProofs.
 
 (** ** 1. the boolean side condition *)
 Lemma names_only_good k : names_only k = true -> forallb is_name k = true /\ k <> [].
@@ -54,10 +54,11 @@ Section Clean.
   (** ** 2. restriction to a covering key set *)
   Theorem eval_sufficient e o K :
     frag e = true -> wf_dict o = true -> good_keys K -> RR K o (snd (evalN e o tt)) ->
+    effects_opt_off (restrict o K) = effects_opt_off o ->
     obs (evalN e (restrict o K) tt) = obs (evalN e o tt).
   Proof.
-    intros Hf Hw Hg Hrv.
-    destruct (frame_all u fuel e Hf o (restrict o K) Hw (wf_restrict o K Hw)) as (E & _ & _).
+    intros Hf Hw Hg Hrv Hsw.
+    destruct (frame_all u fuel e Hf o (restrict o K) Hw (wf_restrict o K Hw) Hsw) as (E & _ & _).
     apply E. now apply agree_restrict.
   Qed.
 
@@ -72,17 +73,21 @@ Section Clean.
     good_keys K -> all_present K o ->
     (forall k, In k K -> lookup k (JObj o') = lookup k (JObj o)) ->
     RR K o (snd (evalN e o tt)) -> RR K o' (snd (evalN e o' tt)) ->
+    effects_opt_off (restrict o K) = effects_opt_off o ->
+    effects_opt_off (restrict o' K) = effects_opt_off o' ->
+    effects_opt_off o' = effects_opt_off o ->
     fst (fst (evalN e o' tt)) = fst (fst (evalN e o tt)).
   Proof.
-    intros Hf Hw Hw' Hg Hp Hsame Hrv Hrv'.
+    intros Hf Hw Hw' Hg Hp Hsame Hrv Hrv' Hs1 Hs2 Hs3.
     assert (Hp' : all_present K o').
     { intros k Hin. destruct (Hp k Hin) as [v Hv]. exists v. now rewrite (Hsame k Hin). }
-    pose proof (eval_sufficient e o K Hf Hw Hg Hrv) as E1.
-    pose proof (eval_sufficient e o' K Hf Hw' Hg Hrv') as E2.
+    pose proof (eval_sufficient e o K Hf Hw Hg Hrv Hs1) as E1.
+    pose proof (eval_sufficient e o' K Hf Hw' Hg Hrv' Hs2) as E2.
     set (R := restrict o K) in *. set (R' := restrict o' K) in *.
     assert (Hrep : reported_ok o K) by now apply reported_ok_of.
     assert (Hrep' : reported_ok o' K) by now apply reported_ok_of.
-    destruct (frame_all u fuel e Hf R R' (wf_restrict o K Hw) (wf_restrict o' K Hw')) as (E3 & _ & _).
+    assert (HsR : effects_opt_off R' = effects_opt_off R) by congruence.
+    destruct (frame_all u fuel e Hf R R' (wf_restrict o K Hw) (wf_restrict o' K Hw') HsR) as (E3 & _ & _).
     assert (Hag : agree_keys R R' (reads_of (snd (evalN e R tt)))).
     { assert (Hreads : reads_of (snd (evalN e R tt)) = reads_of (snd (evalN e o tt))).
       { unfold obs in E1. cbn [fst snd] in E1.
@@ -124,13 +129,19 @@ Section Clean.
       fingerprint of [o] can only be served for an [o'] with the same fingerprint; then the
       cache-free evaluations of [o] and [o'] coincide — provided both dictionaries are clean
       for [e] (every present option the evaluation reads is reported by keys()). *)
+  (** the effects switch (LABREA.EFFECTS.DISABLED) is read by Computation without being an option
+      read: restricting [o] to the reported keys must not flip it *)
+  Definition esw_stable (e : expr) (o : dict) : Prop :=
+    forall K, fst (fst (keysN e o tt)) = Ok K -> effects_opt_off (restrict o K) = effects_opt_off o.
+
   Theorem equal_fingerprint_equal_outcome e o o' f :
     frag e = true -> wf_dict o = true -> wf_dict o' = true ->
     clean_at u fuel e o = true -> clean_at u fuel e o' = true ->
+    esw_stable e o -> esw_stable e o' -> effects_opt_off o' = effects_opt_off o ->
     fingerprintN e o = Ok f -> fingerprintN e o' = Ok f ->
     fst (fst (evalN e o' tt)) = fst (fst (evalN e o tt)).
   Proof.
-    intros Hf Hw Hw' Hc Hc' Hfp Hfp'. unfold fingerprintN in *.
+    intros Hf Hw Hw' Hc Hc' He1 He2 He3 Hfp Hfp'. unfold fingerprintN in *.
     destruct (keysN e o tt) as [[[K|c ee] []] lk] eqn:Hk; [|discriminate].
     destruct (keysN e o' tt) as [[[K'|c ee] []] lk'] eqn:Hk'; [|discriminate].
     destruct (clean_at_spec e o K lk Hc Hk) as (Hg & Hrv & _).
@@ -141,6 +152,10 @@ Section Clean.
     destruct (fingerprint_of_ok unit _ _ _ _ _ _ Ef') as (_ & _ & Hm' & Hv').
     assert (Hmem : forall k, In k K <-> In k K').
     { intros k. rewrite <- (key_sort_In k K), <- (key_sort_In k K'). now rewrite <- Hm, <- Hm'. }
+    assert (Hr1 : effects_opt_off (restrict o K) = effects_opt_off o) by (apply He1; now rewrite Hk).
+    assert (Hr2 : effects_opt_off (restrict o' K') = effects_opt_off o') by (apply He2; now rewrite Hk').
+    assert (HKK : restrict o' K = restrict o' K').
+    { apply restrict_ext. intros k. apply Hmem. }
     apply (same_reported_same_outcome e o o' K Hf Hw Hw' Hg).
     - intros k Hk0. assert (Hin : In k (map fst f)) by (rewrite Hm; now apply key_sort_In).
       destruct (In_fst_map _ _ Hin) as [v Hvf]. exists v. now apply Hv.
@@ -148,16 +163,20 @@ Section Clean.
       destruct (In_fst_map _ _ Hin) as [v Hvf]. now rewrite (Hv _ _ Hvf), (Hv' _ _ Hvf).
     - exact Hrv.
     - eapply RR_members; [|exact Hrv']. intros k. apply Hmem.
+    - exact Hr1.
+    - rewrite HKK. exact Hr2.
+    - exact He3.
   Qed.
 
   (** ** C03: keys() is sufficient, with the boolean side condition *)
   Theorem keys_sufficient_clean e o K lk :
     frag e = true -> wf_dict o = true -> clean_at u fuel e o = true ->
     keysN e o tt = (Ok K, tt, lk) ->
+    effects_opt_off (restrict o K) = effects_opt_off o ->
     obs (evalN e (restrict o K) tt) = obs (evalN e o tt) /\
     obs (keysN e (restrict o K) tt) = obs (keysN e o tt).
   Proof.
-    intros Hf Hw Hc Hk. destruct (clean_at_spec e o K lk Hc Hk) as (Hg & Hrv & Hrk).
+    intros Hf Hw Hc Hk Hsw. destruct (clean_at_spec e o K lk Hc Hk) as (Hg & Hrv & Hrk).
     destruct (evalN e o tt) as [[rv []] lv] eqn:He. cbn [snd] in Hrv.
     rewrite <- He. eapply keys_sufficient; eauto.
   Qed.
